@@ -1113,6 +1113,8 @@ class Mps(MatrixProduct):
             assert self.evolve_config.tdvp_cmf_midpoint
 
         imag_time = np.iscomplex(evolve_dt)
+        # the (possibly imaginary) step as given by the caller, for the recursive half step below
+        orig_evolve_dt = evolve_dt
 
         # a workaround for https://github.com/scipy/scipy/issues/10164
         if imag_time:
@@ -1138,7 +1140,7 @@ class Mps(MatrixProduct):
             self.evolve_config.tdvp_cmf_midpoint = False
             self.evolve_config.tdvp_cmf_c_trapz = False
             self.evolve_config.adaptive = False
-            environ_mps = self.evolve(mpo, evolve_dt / 2)
+            environ_mps = self.evolve(mpo, orig_evolve_dt / 2)
             self.evolve_config = orig_config
         else:
             # mps at t=0 as environment
